@@ -200,7 +200,7 @@ def number_table(prog):
     if not prog.has_body(key):
         raise Inconclusive("function number() not found")
     mx = prog.consts.get("MAX_SAFE_INTEGER", 900719925474099)
-    for outcome, rep in (("ok", 0), ("ok", mx), ("ok", mx + 1), ("err", 0)):
+    for outcome, rep in (("ok", 0), ("ok", mx - 1), ("ok", mx), ("ok", mx + 1), ("err", 0)):
         ctx = Ctx()
         pol = NumberPolicy(prog, ctx, outcome, rep)
         it = Interp(prog, pol, ctx=ctx)
